@@ -27,7 +27,8 @@ CONSTANTS Names,        \* fact names
           PartOrd(_),   \* order of key parts (string -> integer), "" < "a" < "b"
           MaxSessions,
           Programs,     \* the programs the harness policy can be asked to run
-          Record
+          Record,
+          Fat           \* history records carry the expectation of every step (simulation)
 
 VARIABLES committed,    \* flat map of the graph (fact cache)
           ncommit,      \* number of on-graph actions so far (stands for heads / segments)
@@ -111,7 +112,7 @@ Rec(o, s, m, ups, chk, r) ==
 Exp(r) == r @@ [sv |-> [s \in 1..nsess' |-> FlatSeq(FApply(base'[s], slog'[s]))],
                 cv |-> FlatSeq(committed'), nc |-> ncommit', no |-> Len(out')]
 Log(r) == /\ last' = Exp(r)
-          /\ hist' = IF Record THEN Append(hist, r) ELSE hist
+          /\ hist' = IF ~Record THEN hist ELSE IF Fat THEN Append(hist, Exp(r)) ELSE Append(hist, r)
 
 Init == /\ committed = FlatEmpty /\ ncommit = 0
         /\ nsess = 0 /\ base = <<>> /\ slog = <<>> /\ cur = <<>>
